@@ -223,7 +223,8 @@ Section Lib.
     match v with
     | Some (VArr l) =>
         match numbers_of l with
-        | Some xs => ret (Some (VNum (fold_left fadd xs fzero)))
+        | Some xs => let t := fold_left fadd xs fzero in
+                     if is_finite t then ret (Some (VNum t)) else fail (ELib "sum: not finite")
         | None => fail (ELib "sum: non-number")
         end
     | Some (VNum x) => ret (Some (VNum x))
@@ -256,7 +257,8 @@ Section Lib.
         match l with
         | [] => ret None
         | _ => match numbers_of l with
-               | Some xs => ret (Some (VNum (fdiv (fold_left fadd xs fzero) (f_of_nat (List.length xs)))))
+               | Some xs => let a := fdiv (fold_left fadd xs fzero) (f_of_nat (List.length xs)) in
+                            if is_finite a then ret (Some (VNum a)) else fail (ELib "average: not finite")
                | None => fail (ELib "average: non-number")
                end
         end
